@@ -22,7 +22,8 @@ fn state_with(r: &mut Rng, nbind: u64, pnew: f32) -> (PushState, Vec<String>) {
     let mut st = PushState::new();
     let mut names = vec![];
     for i in 0..nbind {
-        let k = format!("v{}", i);
+        // every third key contains a blank, as the names NAME.CAT builds do
+        let k = if i % 3 == 2 { format!("v{} w", i) } else { format!("v{}", i) };
         st.name_bindings.insert(k.clone(), Item::int(r.range(0, 9) as i32));
         names.push(k);
     }
